@@ -41,7 +41,7 @@ CLAIM = dict(
 
 THEOREMS = ["routes_enum_documented", "traverse_exact", "tables_exact", "multisource_iff", "tables_total",
             "tables_spec", "rte_roundtrip", "route_word_bits", "load_exact", "load_alloc_failure",
-            "readback_exact", "load_then_readback"]
+            "readback_exact", "load_then_readback", "clear_exact"]
 
 RULE = ("pure cases = forests of 1-6 nets on a 4x4 torus: random branching trees/chains with vertex leaves (core route, link "
         "route or None), key/mask drawn from a pool of 1-3 so nets share them, later nets re-using (copying) subtrees of "
@@ -209,7 +209,9 @@ def impl_tables(case):
 def norm_tables(res):
     """order-insensitive form (the property does not fix the order of chips or of entries in a chip)"""
     if "ok" not in res:
-        return res
+        # which of several conflicts is met first depends on the traversal order, which the property leaves
+        # open: the reported (key, mask, chip) is judged by the oracle (ConflictAt), not by the correspondence
+        return {"err": res["err"][:1]}
     return {"ok": sorted([c, sorted(es)] for c, es in res["ok"])}
 
 
@@ -241,7 +243,7 @@ def eval_forests(ctx, cases):
             ctx.tag("forest_ok_with_merge")
         if norm_tables(impl) != norm_tables(model):
             ctx.mismatch("c10.tables", "impl=%r model=%r" % (str(impl)[:300], str(model)[:300]), c)
-        elif impl != model and "ok" in impl:
+        elif impl != model:
             ctx.tag("forest_order_differs_from_model")
         if wf:
             if not spec["holds"]:
@@ -823,7 +825,7 @@ def run(ctx):
         "reliable network in this check (loss and reordering are C06/C07)"]
     mult = 4 if ctx.extended else 1
     n_forest = ctx.scale(1000, 30000) * mult
-    n_load = ctx.scale(120, 2500) * mult
+    n_load = ctx.scale(120, 1800) * mult
     n_codec = ctx.scale(2000, 40000) * mult
     forests = [gen_forest(ctx.rng) for _ in range(n_forest)]
     for i in range(0, len(forests), 2000):
